@@ -187,7 +187,7 @@ work_fini (work_p wp, int do_wait)
          *  Calling work_wait() won't work here since the wait wouldn't
          *    be atomic with the mutex being dropped between function calls.
          */
-        while ((wp->n_working != 0) && (wp->work_head != NULL)) {
+        while ((wp->n_working != 0) || (wp->work_head != NULL)) {
             if ((errno = pthread_cond_wait
                         (&wp->finished_work, &wp->lock)) != 0) {
                 log_errno (EMUNGE_SNAFU, LOG_ERR,
@@ -301,7 +301,7 @@ work_wait (work_p wp)
     }
     /*  Wait until all the queued work is finished.
      */
-    while ((wp->n_working != 0) && (wp->work_head != NULL)) {
+    while ((wp->n_working != 0) || (wp->work_head != NULL)) {
         if ((errno = pthread_cond_wait (&wp->finished_work, &wp->lock)) != 0) {
             log_errno (EMUNGE_SNAFU, LOG_ERR,
                 "Failed to wait on work thread for finished work");
